@@ -97,6 +97,11 @@ CHECKS.update({
  "C15": _partial("C15", "out[i] only where i < size, E_MEMORY_BOUNDS when the capacity is reached; flags outside {0,1,2,3} => E_OPTION_INVALID on both experimental entry points; "
                  "containment-mode enum/mask witnesses.",
                  "what each containment mode means geometrically, nestedness, the size estimate being an upper bound.", "R-BW " + BW + "; R-GUARD " + G + "; R-WIT " + WIT),
+ "C16": _partial("C16", "the memory clause: scratch arrays of normalizeMultiPolygon/findPolygonForHole and the duplicate-node path of addVertexNode are freed on every path "
+                 "without double free; a local vertex graph is destroyed on every path once initialised; cellsToLinkedMultiPolygon destroys the result before returning an error; "
+                 "a hole that cannot be placed is freed; every struct type the builders allocate is freed in the call tree of destroyLinkedMultiPolygon / destroyVertexGraph.",
+                 "the outline itself: one polygon per component, winding, closedness, enclosed area (depends on bit-level agreement of vertex coordinates and a float hash).",
+                 "R-ALLOC allocation typestate; R-OWN ownership-protocol rules over LLVM IR"),
  "C19": _partial("C19", "maxFaceCount = 5 for a pentagon else 2; getIcosahedronFaces initialises and writes only slots below that count (relation facts incl. the insertion loop); "
                  "face adjacency tables (T5, T9).",
                  "that the reported faces are exactly the intersected ones (overage geometry).", "R-CFORM " + CF + "; R-BW " + BW + "; R-TAB T5,T9 " + TAB),
